@@ -23,17 +23,18 @@ class Unsupported(Exception):
 
 class St:
     """symbolic state of one path (copy-on-write by explicit copy())"""
-    __slots__ = ("env", "glob", "heap", "conds", "loops", "notes")
+    __slots__ = ("env", "glob", "heap", "conds", "loops", "events")
 
-    def __init__(self, env=None, glob=None, heap=None, conds=None, loops=None):
+    def __init__(self, env=None, glob=None, heap=None, conds=None, loops=None, events=None):
         self.env = env if env is not None else {}
         self.glob = glob if glob is not None else {}
         self.heap = heap if heap is not None else {}
         self.conds = conds if conds is not None else []
         self.loops = loops if loops is not None else []
+        self.events = events if events is not None else []     # (exception code term, message, line) of partial operations passed
 
     def copy(self):
-        return St(dict(self.env), dict(self.glob), dict(self.heap), list(self.conds), list(self.loops))
+        return St(dict(self.env), dict(self.glob), dict(self.heap), list(self.conds), list(self.loops), list(self.events))
 
     def assume(self, c):
         s = self.copy()
@@ -68,6 +69,8 @@ class LoopRecord:
         self.cout = {}             # key -> const (state after the loop)
         self.elem = None
         self.entry_conds = []
+        self.n_events = 0          # number of events on the path at loop entry
+        self.entry_vals = {}       # key -> value at loop entry (used to pair renamed locals of real and spec)
         self.body = []             # Outcomes of one iteration: kind next|ret|raise
         self.exit = None           # Int const: 0 completed, -1 returned from inside, >0 exception code
         self.retv = None
@@ -107,12 +110,16 @@ class Exec:
         self.notes = []
         self.writes = None         # when not None: set collecting written location keys (dry run)
         self.depth = 0
+        self.fn_locals = set()
+        self.pure = 0              # >0 while computing a location: receivers are evaluated without recording exceptional behaviour
+        self.try_depth = 0
 
     # ------------------------------------------------------------------------------------------------ running
     def run_function(self, fdef, args, st):
         """args: dict param -> value. returns list of Outcome (ret / raise)"""
         st = st.copy()
         st.env = dict(args)
+        self.fn_locals = {n.id for n in ast.walk(fdef) if isinstance(n, ast.Name) and isinstance(n.ctx, ast.Store)} - set(self.ctx.cur_globals)
         outs = []
         self.ret_sink = outs
         self.exc_sinks.append(outs)
@@ -123,7 +130,25 @@ class Exec:
             self.exc_sinks.pop()
         return outs
 
+    def may_raise(self, p, c, msg=None, line=None):
+        """a partial primitive with exception code `c` (0 = normal) was executed on path p; returns the continuing path or None.
+        Inside a try block the exceptional outcome is forked (a handler may catch it); elsewhere the path only records the event:
+        real and spec must pass the same events (lockstep.relate_events), which avoids one fork per library call."""
+        if self.pure:
+            return p
+        if self.try_depth > 0:
+            pe = p.assume(c != 0)
+            if self.feasible(pe):
+                self.raise_(pe, c, msg, line)
+            pk = p.assume(c == 0)
+            return pk if self.feasible(pk) else None
+        q = p.copy()
+        q.events.append((c, msg, line))
+        return q
+
     def raise_(self, st, cls, msg=None, line=None):
+        if self.pure:
+            return
         if isinstance(cls, str):
             cls = z3.IntVal(EXC_CODE[cls])
         self.exc_sinks[-1].append(Outcome("raise", st, cls=cls, msg=msg, line=line))
@@ -224,9 +249,11 @@ class Exec:
             raise Unsupported("try/finally or try/else", s)
         caught = []
         self.exc_sinks.append(caught)
+        self.try_depth += 1
         try:
             live = self.block(s.body, [p])
         finally:
+            self.try_depth -= 1
             self.exc_sinks.pop()
         for o in caught:
             if o.kind != "raise":
@@ -264,9 +291,19 @@ class Exec:
 
     # ------------------------------------------------------------------------------------------------ locations
     def loc(self, e, p):
-        """Location for an lvalue / receiver expression, or None. Pure sub-expressions only."""
+        """Location for an lvalue / receiver expression, or None. Receiver sub-expressions are evaluated in pure mode: exceptions
+        raised while *computing the location* are not modelled (stated in the evidence)."""
+        self.pure += 1
+        try:
+            return self._loc(e, p)
+        finally:
+            self.pure -= 1
+
+    def _loc(self, e, p):
         if isinstance(e, ast.Name):
             name = e.id
+            if name not in p.env and name not in self.ctx.globals_of(self.fname) and name not in self.fn_locals and not isinstance(e.ctx, ast.Store):
+                return None          # a module-level name (constant table, class, function): not a location
             if name in p.env or name not in self.ctx.globals_of(self.fname):
                 def get(st, name=name):
                     if name in st.env:
@@ -287,10 +324,13 @@ class Exec:
             objs = self.ev(e.value, p)
             if len(objs) != 1:
                 return None
+            if isinstance(objs[0][0], (ClassRef, PyC, Tup)):
+                return None
             obj = asV(objs[0][0])
-            hk = (obj.sexpr(), e.attr)
+            attr_name = self.ctx.field_of(e.attr)
+            hk = (obj.sexpr(), attr_name)
 
-            def hget(st, hk=hk, obj=obj, attr=e.attr):
+            def hget(st, hk=hk, obj=obj, attr=attr_name):
                 if hk in st.heap:
                     return st.heap[hk]
                 return app("attr_" + attr, obj)
@@ -299,7 +339,7 @@ class Exec:
                 st.heap[hk] = v
             return Loc("heap:%s.%s" % hk, hget, hset)
         if isinstance(e, ast.Subscript):
-            base = self.loc(e.value, p)
+            base = self._loc(e.value, p)
             if base is None:
                 return None
             ks = self.ev(e.slice, p)
@@ -336,11 +376,9 @@ class Exec:
                 paths = [p]
             else:
                 vv = asV(v)
-                c = code("unpack%d" % n, vv)
-                pe = p.assume(c != 0)
-                if self.feasible(pe):
-                    self.raise_(pe, c, None, tgt.lineno)
-                p = p.assume(c == 0)
+                p = self.may_raise(p, code("unpack%d" % n, vv), None, tgt.lineno)
+                if p is None:
+                    return []
                 items = [app("getitem", vv, IntV(i)) for i in range(n)]
                 paths = [p]
             for el, it in zip(tgt.elts, items):
@@ -395,12 +433,9 @@ class Exec:
         for k, p2 in self.ev(tgt.slice, p):
             d = asV(base.get(p2))
             kk = asV(k)
-            c = code("dict_del", d, kk)
-            pe = p2.assume(c != 0)
-            if self.feasible(pe):
-                self.raise_(pe, c, None, tgt.lineno)
-            p3 = p2.assume(c == 0)
-            if self.feasible(p3):
+            p3 = self.may_raise(p2, code("dict_del", d, kk), None, tgt.lineno)
+            if p3 is not None:
+                p3 = p3.copy()
                 base.set(p3, app("dict_del", d, kk))
                 self.note_write(base.key)
                 self.ctx.effect(self, p3, "del-item", base.key, tgt)
@@ -425,6 +460,10 @@ class Exec:
         if isinstance(e, ast.Constant):
             return [(PyC(e.value), p)]
         if isinstance(e, ast.Name):
+            if e.id not in p.env and e.id in self.fn_locals and e.id not in p.glob:
+                # a local that is not bound on this path: Python raises UnboundLocalError (a NameError)
+                self.raise_(p, "NameError", PyC("local variable '%s' referenced before assignment" % e.id), e.lineno)
+                return []
             return [(self.name(e, p), p)]
         if isinstance(e, (ast.Tuple, ast.List)):
             kind = "tuple" if isinstance(e, ast.Tuple) else "list"
@@ -627,12 +666,8 @@ class Exec:
                     res.append((PyC(b.v[k.v]), p3))
                     continue
                 bv, kv = asV(b), asV(k)
-                c = code("getitem", bv, kv)
-                pe = p3.assume(c != 0)
-                if self.feasible(pe):
-                    self.raise_(pe, c, None, e.lineno)
-                pk = p3.assume(c == 0)
-                if self.feasible(pk):
+                pk = self.may_raise(p3, code("getitem", bv, kv), None, e.lineno)
+                if pk is not None:
                     res.append((app("getitem", bv, kv), pk))
         return res
 
@@ -641,16 +676,16 @@ class Exec:
         ref = self.ctx.dotted(self, e)
         if ref is not None:
             return [(ref, p)]
-        l = self.loc(e, p)
-        if l is not None:
-            obj = self.ev(e.value, p)[0][0]
-            self.ctx.none_check(self, p, obj, e)
-            v = self.ctx.attr_hook(self, p, obj, e.attr, l.get(p))
-            return [(v, p)]
         res = []
         for obj, p2 in self.ev(e.value, p):
             self.ctx.none_check(self, p2, obj, e)
-            res.append((self.ctx.attr_hook(self, p2, obj, e.attr, app("attr_" + e.attr, asV(obj))), p2))
+            if isinstance(obj, (ClassRef, PyC, Tup, Closure, ExcVal)):
+                raise Unsupported("attribute %s of a constant / class" % e.attr, e)
+            o = asV(obj)
+            field = self.ctx.field_of(e.attr)
+            hk = (o.sexpr(), field)
+            cur = p2.heap[hk] if hk in p2.heap else app("attr_" + field, o)
+            res.append((self.ctx.attr_hook(self, p2, obj, e.attr, cur), p2))
         return res
 
     # ------------------------------------------------------------------------------------------------ calls
@@ -734,6 +769,7 @@ class Exec:
                 written.add("local:" + n.id)
         for _ in range(4):
             ex = Exec(self.ctx, "dry", self.fname)
+            ex.fn_locals = self.fn_locals
             ex.writes = set()
             ex.ret_sink = []
             ex.exc_sinks = [[]]
@@ -802,6 +838,12 @@ class Exec:
         rec.node, rec.iter = s, xs
         rec.written = self.dry_written(s, xs, p)
         rec.entry_conds = list(p.conds)
+        rec.n_events = len(p.events)
+        for k in rec.written:
+            try:
+                rec.entry_vals[k] = self.loc_by_key(k).get(p)
+            except KeyError:
+                pass
         q = p.copy()
         rec.cin = self.havoc(q, rec.written, "cin%d" % rec.uid)
         rec.elem = fresh("elem%d" % rec.uid)
@@ -818,7 +860,7 @@ class Exec:
             rec.retv = fresh("loopret%d" % rec.uid)
             rec.msg = fresh("loopmsg%d" % rec.uid)
         has_ret = any(o.kind == "ret" for o in rec.body)
-        has_raise = any(o.kind == "raise" for o in rec.body)
+        has_raise = any(o.kind == "raise" or len(o.st.events) > rec.n_events for o in rec.body)
         q = p.copy()
         self.havoc(q, rec.written, "x", consts=rec.cout)
         for k in rec.written:
@@ -827,11 +869,15 @@ class Exec:
         res = []
         if has_ret:
             pr = q.assume(rec.exit == -1)
-            self.ret_sink.append(Outcome("ret", pr, value=rec.retv))
+            if self.feasible(pr):
+                self.ret_sink.append(Outcome("ret", pr, value=rec.retv))
         if has_raise:
             pe = q.assume(rec.exit > 0)
-            self.raise_(pe, rec.exit, rec.msg, rec.node.lineno)
-        res.append(q.assume(rec.exit == 0))
+            if self.feasible(pe):
+                self.raise_(pe, rec.exit, rec.msg, rec.node.lineno)
+        pn = q.assume(rec.exit == 0)
+        if self.feasible(pn):
+            res.append(pn)
         return res
 
     def whileloop(self, s, p):
